@@ -334,13 +334,14 @@ SchApi ==
 
 LayAll  == [indent : {0, 1, 2, 4, 8}, spacer : {"space", "tab"}, quote : {"double", "single"}, nl : {"lf", "crlf"}]
 LayDefault == [indent |-> 4, spacer |-> "space", quote |-> "double", nl |-> "lf"]
-LayChoices == IF Mode = "walk"
+\* (operators with an argument: TLC evaluates constant-level definitions once, and a draw must be fresh per behaviour)
+LayChoices(h) == IF Mode = "walk"
               THEN {[indent |-> RandomElement({0, 1, 2, 4, 8}), spacer |-> RandomElement({"space", "tab"}),
                      quote |-> RandomElement({"double", "single"}), nl |-> RandomElement({"lf", "crlf"})]}
               ELSE IF Layouts = "one" THEN {LayDefault}
               ELSE IF Layouts = "some" THEN {l \in LayAll : l.indent \in {1, 4}}
               ELSE LayAll
-KindChoices == IF Mode = "walk" THEN {[i \in StrIds |-> RandomElement(StrKinds)]} ELSE [StrIds -> StrKinds]
+KindChoices(h) == IF Mode = "walk" THEN {[i \in StrIds |-> RandomElement(StrKinds)]} ELSE [StrIds -> StrKinds]
 
 Readers == {"open", "load", "loadraw"}            \* on a path; "loads" reads a string
 Writers == {"dumps", "save", "dump-sio", "dump-file"}
@@ -350,7 +351,7 @@ NextOps(S) == IF Mode = "walk" THEN {RandomElement(S)} ELSE {CHOOSE x \in S : TR
 
 ApiGen ==
     /\ pc = "env" /\ scen = "api"
-    /\ \E kinds \in KindChoices, lay \in LayChoices :
+    /\ \E kinds \in KindChoices(hist), lay \in LayChoices(hist) :
          LET src == [k |-> "str", doc |-> "generated", strs |-> [i \in StrIds |-> Chars(kinds[i])],
                      inc |-> "na", com |-> "absent", lay |-> "source", nerr |-> ZeroErr]
          IN  /\ fs' = [fs EXCEPT !["t"] = FileOf(src, "utf8")]        \* the generator writes T as UTF-8 bytes
